@@ -143,13 +143,15 @@ parseChunks:
 				return nil, fmt.Errorf("invalid ICC profile chunk length")
 			}
 
-			chunkData := make([]byte, ch.Length-offset)
-			bytesRead, err := r.Read(chunkData)
+			// The declared length is not trusted for an up-front allocation, and
+			// the body is read completely however the reader delivers it.
+			chunkData := bytes.Buffer{}
+			_, err = io.CopyN(&chunkData, r, int64(ch.Length-offset))
 			if err != nil {
+				if err == io.EOF {
+					return nil, fmt.Errorf("unexpected EOF reading ICC profile chunk")
+				}
 				return nil, err
-			}
-			if bytesRead != len(chunkData) {
-				return nil, fmt.Errorf("unexpected EOF reading ICC profile chunk")
 			}
 
 			// Skip chunk CRC
@@ -159,7 +161,7 @@ parseChunks:
 			}
 
 			// Decompress ICC profile data
-			zReader, err := zlib.NewReader(bytes.NewReader(chunkData))
+			zReader, err := zlib.NewReader(&chunkData)
 			if err != nil {
 				md.SetICCProfileError(err)
 				break
